@@ -204,7 +204,19 @@ fn check_spec(spec: &RuleSpec, th: bool) -> Stats {
                             bad = Some("error-is-not-a-validation-error".into());
                         } else {
                             let msg = format!("{}", e);
-                            for f in &failing {
+                            // the naming oracle applies when the message identifies examples by
+                            // their content (it does today); a message format that does not
+                            // quote example content at all is not judged
+                            let content_based = tp
+                                .iter()
+                                .chain(tn.iter())
+                                .filter_map(|x| x.marker.as_ref())
+                                .any(|m| msg.contains(m.as_str()));
+                            let has_marked_failure = failing.iter().any(|f| f.marker.is_some());
+                            if !content_based && has_marked_failure {
+                                st.count("errors_not_quoting_example_content(not judged)", 1);
+                            }
+                            for f in failing.iter().filter(|_| content_based) {
                                 if let Some(m) = &f.marker {
                                     if !msg.contains(m.as_str()) {
                                         bad = Some("error-does-not-name-a-failing-example".into());
